@@ -50,7 +50,7 @@ WITNESS = {
 PLANS = {
     "C01": dict(
         mc=[("MC_Core_q.cfg", "code as it is: pages 3, versions 2, WAL 4, TXIDs 5, gens 4, 1 down, all checkpoint modes, checkpoint sub-steps interleaved with the application")],
-        mc_thorough=[("MC_Core_asis.cfg", "same with versions 3"), ("MC_Core_asis4.cfg", "same with versions 4"), ("MC_Core_pinned.cfg", "NEGATIVE CONTROL: the pinned transitions (before the fix: commits) - TLC must find the F1/F2/G1 data-loss histories"),
+        mc_thorough=[("MC_Core_asis.cfg", "same with versions 3"), ("MC_Core_asis4.cfg", "same with versions 4, request contexts off (3.1e7 distinct states measured; with them on the run does not fit the tier)"), ("MC_Core_pinned.cfg", "NEGATIVE CONTROL: the pinned transitions (before the fix: commits) - TLC must find the F1/F2/G1 data-loss histories"),
                      ("MC_Core_q1.cfg", "NEGATIVE CONTROL: read transaction bound to a request context (Q1, before its fix) - TLC must find the data-loss history"),
                      ("MC_Core_q2.cfg", "NEGATIVE CONTROL: read transaction not re-acquired after a checkpoint whose context was cancelled (Q2, before its fix)")],
         sim=[("Sim_Core_run.cfg", 80, 600, 40), ("Sim_Core_gated.cfg", 100, 900, 45)],
@@ -66,7 +66,7 @@ PLANS = {
             ("LocalChain", "MC_LocalChain_zeroOnly.cfg", "NEGATIVE CONTROL: replica re-check only at position zero (S2, before its fix)"),
             ("LocalChain", "MC_LocalChain_initOnly.cfg", "NEGATIVE CONTROL: replica re-check only in init (F3, before its fix)"),
             ("LocalChain", "MC_LocalChain_snapAhead.cfg", "NEGATIVE CONTROL: snapshot written ahead of the level-0 uploads (S3, before its fix)")],
-        mc_thorough=[("MC_Core_asis.cfg", "versions 3"), ("MC_Core_asis4.cfg", "versions 4"), ("MC_Core_down2.cfg", "2 downs")],
+        mc_thorough=[("MC_Core_asis.cfg", "versions 3"), ("MC_Core_down2.cfg", "2 downs")],     # (versions 4: in C01's thorough tier)
         sim=[("Sim_Core_down.cfg", 250, 1200, 45)],
         dump=None,
         random=dict(n=200, n_thorough=1200, length=34, with_down=True, with_state_loss=True),
@@ -77,7 +77,7 @@ PLANS = {
     ),
     "C02": dict(
         mc=[("MC_Core_q.cfg", "NoUncommitted: no page version of an open or rolled-back transaction in any level-0 file; versions 2")],
-        mc_thorough=[("MC_Core_asis.cfg", "versions 3"), ("MC_Core_asis4.cfg", "versions 4")],
+        mc_thorough=[("MC_Core_asis.cfg", "versions 3")],     # (versions 4: in C01's thorough tier)
         sim=[("Sim_Core_run.cfg", 100, 600, 40), ("Sim_Core_gated.cfg", 80, 600, 45)],
         dump=None,
         random=dict(n=120, n_thorough=800, length=30, with_down=False, with_state_loss=False, tx_heavy=True),
@@ -231,7 +231,7 @@ def run(prop, argv):
         else:
             for ent in plan["mc"] + (plan.get("mc_thorough", []) if tier == "thorough" else []):
                 module, cfgname, what = ent if len(ent) == 3 else ("Core", ent[0], ent[1])
-                r = vlib.run_tlc(module, cfgname, wd, workers=vlib.NCPU, timeout=3300)
+                r = vlib.run_tlc(module, cfgname, wd, workers=vlib.NCPU, timeout=7000)
                 vlib.tlc_expect_ok(r, cfgname)
                 rep.add_tlc(cfgname, r, what)
                 if r.violated:
